@@ -406,7 +406,17 @@ func TestC18(t *testing.T) {
 			w3 := mkWorld(gen.Seed() + 30)
 			w3.Build()
 			vo := w3.Options(gen.LvlCRL, w3.NewGetter(), nil)
-			st, v := parse(w3, w3.Raw, nonce, nil, func(o *verify.Options) { *o = *vo })
+			first := rtmr.TdxDefaultOpts(nonce)
+			first.Verification = vo // this very value is used again below
+			var st any
+			gen.Eval()
+			v := gen.Call(func() error {
+				s, err := rtmr.ParseCcelWithTdQuote(ccel, table, w3.Q.ToProto(), &first)
+				if s != nil {
+					st = s
+				}
+				return err
+			})
 			if st == nil || !v.Accepted() {
 				gen.Fail(t, gen.Violation{Key: "control-blocked:first-call", Oracle: "control: honest collateral does not block the state", Detail: v.String(), Replay: map[string]any{"kind": "ccel", "class": "control"}})
 				return
